@@ -34,6 +34,7 @@ PeerInit(NP, N, spec) ==
     sim    |-> [f \in {} |-> <<>>],      \* frame -> inputs of the LAST simulation
     tl     |-> [f \in {0} |-> HashInit], \* frame -> state hash on the current timeline
     ver    |-> -1,                      \* frames <= ver are verified final
+    ser    |-> HashInit,                \* state after frame ver on the serial replay of the final inputs (-1: unknown)
     maxSim |-> -1,                      \* highest frame ever simulated
     stat   |-> [h \in 0..NP-1 |-> <<FALSE, -1>>],
     conf   |-> -1,
@@ -108,7 +109,7 @@ InitRun(c, viol, stats, run) ==
                                  ELSE ({owner[h] : h \in 0..NP-1} \ {p})
                                       \cup {q \in 0..N-1 : ~isP2P(q) /\ Get(pc[q], "host", 0) = p}
                       IN [PeerInit(NP, N, ~isP2P(p)) EXCEPT
-                            !.evs = [q \in 0..N-1 |-> IF q \in rem THEN <<"run", 0>> ELSE EvInit],
+                            !.evs = [q \in 0..N-1 |-> IF q \in rem THEN <<"run", 0, NumSyncRoundTrips>> ELSE EvInit],
                             !.matched = [q \in 0..N-1 |-> IF q \in rem THEN NumSyncRoundTrips ELSE 0],
                             !.run = TRUE]
                  ELSE PeerInit(NP, N, ~isP2P(p))],
@@ -279,6 +280,16 @@ FinalH(gg, p, pe, f, r, h) ==
                             V("C07", r.n, "frame-at-or-before-cutoff-disconnected", <<p, h, f, last>>))
     IN me \o FinalH(gg, p, pe, f, r, h + 1)
 
+\* C01, second half: the serial replay of the (verified) final inputs of frames f..hi, started from state h
+\* (the harness' deliberate divergence from frame cf on is part of its game, so it is part of the replay)
+RECURSIVE SerialFold(_, _, _, _, _, _)
+SerialFold(gg, p, pe, f, hi, h) ==
+  IF h < 0 \/ f > hi THEN h
+  ELSE IF f \notin DOMAIN pe.sim THEN -1
+  ELSE LET n0 == Chain(h, pe.sim[f])
+           n1 == IF f >= gg.cf[p] THEN (n0 + 17) % HashMod ELSE n0
+       IN SerialFold(gg, p, pe, f + 1, hi, n1)
+
 RECURSIVE FinalF(_, _, _, _, _, _)
 FinalF(gg, p, pe, f, hi, r) ==
   IF f > hi THEN <<>> ELSE FinalH(gg, p, pe, f, r, 0) \o FinalF(gg, p, pe, f + 1, hi, r)
@@ -413,6 +424,12 @@ TickP2P(gg, r) ==
       hi   == Min2(pe0.conf, r.cur - 1)
       finV == IF ok /\ r.run THEN FinalF(g1, p, pe1, pe1.ver + 1, hi, r) ELSE <<>>
       ver1 == IF ok /\ r.run THEN Max2(pe1.ver, hi) ELSE pe1.ver
+      \* ... and the game state after the newest final frame equals the serial replay of the final inputs
+      ser1 == IF ok /\ r.run /\ hi > pe1.ver /\ ~gg.isSync[p] THEN SerialFold(g1, p, pe1, pe1.ver + 1, hi, pe1.ser)
+              ELSE pe1.ser
+      serV == When(ok /\ r.run /\ hi > pe1.ver /\ ~gg.isSync[p] /\ ser1 >= 0 /\ (hi + 1) \in DOMAIN pe1.tl
+                     /\ pe1.tl[hi + 1] # ser1,
+                   V("C01", r.n, "state-differs-from-serial-replay", <<p, hi + 1, pe1.tl[hi + 1], ser1>>))
       lo   == Min2(ver1 + 1, r.cur - gg.W - 2) - 1
       pe2  == [pe1 EXCEPT !.pend = IF ok /\ acc.nNew >= 1 THEN [h \in 0..gg.NP-1 |-> -1] ELSE pend1,
                           !.ncalls = IF gg.isSync[p] THEN @ + 1 ELSE @,   \* (only sync tests need it; unbounded otherwise)
@@ -420,6 +437,7 @@ TickP2P(gg, r) ==
                           !.glitchCall = IF @ = -1 /\ Get(r, "glitched", FALSE) THEN pe0.ncalls + 1 ELSE @,
                           !.mismatch = @ \/ r.r = "E:MismatchedChecksum",
                           !.ver = ver1,
+                          !.ser = ser1,
                           !.conf = Max2(@, r.conf),
                           !.cur = r.cur, !.run = r.run, !.fa = r.fa,
                           !.stat = [h \in 0..gg.NP-1 |-> r.st[h+1]],
@@ -450,7 +468,7 @@ TickP2P(gg, r) ==
                                                     THEN 1 ELSE 0),
                               !.waitArrivals = @ + (IF Has(r, "arr") THEN Len(r.arr) ELSE 0)]
   IN AddViol([g3 EXCEPT !.stats = st1],
-             acc.vs \o endV \o finV \o confV \o syncV \o expV \o tsV \o BufViol(gg, p, r) \o StatV(gg, p, pe0, r))
+             acc.vs \o endV \o finV \o serV \o confV \o syncV \o expV \o tsV \o BufViol(gg, p, r) \o StatV(gg, p, pe0, r))
 
 ---------------------------------------------------------------------------
 \* a `tick` line of a spectator session (C06)
@@ -529,7 +547,7 @@ EvFold(gg, p, r, acc, e) ==
     IF k \in {"Sing", "Sed", "Disc", "Intr", "Resu"} THEN
       LET q  == e[2]
           s0 == pe.evs[q]
-          s1 == EvStep(s0, k, IF k = "Sing" THEN e[3] ELSE NumSyncRoundTrips, IF k = "Sing" THEN e[4] ELSE 0)
+          s1 == EvStep(s0, k, IF k = "Sing" THEN e[3] ELSE 0, IF k = "Sing" THEN e[4] ELSE 0)
           ordV == When(~pe.lossy /\ s1[1] = "bad",
                        V("C12", r.n, "event-out-of-order", <<p, q, k, s0>>))
           timeV ==
@@ -542,7 +560,7 @@ EvFold(gg, p, r, acc, e) ==
                     V("C12", r.n, "interrupted-wrong-remaining-time", <<p, q, e[3]>>))
           trV == When(gg.transient /\ k = "Disc",
                       V("C05", r.n, "disconnected-although-every-fault-was-transient", <<p, q>>))
-          hsV == When(~pe.lossy /\ k = "Sed" /\ pe.matched[q] < NumSyncRoundTrips,
+          hsV == When(~pe.lossy /\ k = "Sed" /\ pe.matched[q] < EvTotal(s0),
                       V("C12", r.n, "synchronized-without-full-handshake", <<p, q, pe.matched[q]>>))
                  \o When(~pe.lossy /\ k = "Sing" /\ pe.matched[q] < e[4],
                          V("C12", r.n, "synchronizing-count-exceeds-matched-round-trips", <<p, q, e[4], pe.matched[q]>>))
@@ -592,7 +610,7 @@ EvLine(gg, r) ==
       allSynced == \A q \in remotes : acc.pe.evs[q][1] # "sync"
       runV == When(exact /\ acc.pe.run # allSynced,
                    V("C12", r.n, "running-state-differs-from-handshake-completion", <<p, acc.pe.run, allSynced>>))
-              \o When(exact /\ \E q \in remotes : acc.pe.evs[q][1] = "sync" /\ acc.pe.matched[q] >= NumSyncRoundTrips,
+              \o When(exact /\ \E q \in remotes : acc.pe.evs[q][1] = "sync" /\ acc.pe.evs[q][3] > 0 /\ acc.pe.matched[q] >= acc.pe.evs[q][3],
                       V("C12", r.n, "full-handshake-but-not-synchronized", <<p>>))
   IN AddViol([gg EXCEPT !.pr[p] = [acc.pe EXCEPT !.calls = 0], !.stats.events = @ + Len(r.ev)],
              acc.vs \o due2 \o runV)
@@ -623,7 +641,7 @@ OtherPeerLine(gg, r) ==
             THEN IF r.h < gg.NP THEN gg.owner[r.h]
                  ELSE IF r.h - gg.NP + 1 <= Len(gg.specs[p]) THEN gg.specs[p][r.h - gg.NP + 1] ELSE -1
             ELSE -1
-      g2 == IF dq >= 0 THEN [g2a EXCEPT !.pr[p].evs[dq] = <<"disc", 0>>,
+      g2 == IF dq >= 0 THEN [g2a EXCEPT !.pr[p].evs[dq] = <<"disc", 0, @[3]>>,
                                           !.pr[p].dropMark = IF @ = -1 THEN g2a.pr[p].cur ELSE @] ELSE g2a
       expV == When(Has(r, "expect") /\ ~(\E i \in 1..Len(r.expect) : r.expect[i] = r.r),
                    V("C16", r.n, "misuse-not-rejected-as-documented", <<p, r.a, r.r, r.expect>>))
